@@ -21,7 +21,7 @@ theorem crc_compute (c crc b : Nat) : Go.crc16.crc16.compute c crc b = some (com
 
 /-- `(*crc16).Write(p)`: new state = the model's `write` (a left fold of `compute`), `n = len(p)`, never panics -/
 theorem crc_write (c : Nat) (p : List Nat) : Go.crc16.crc16.Write c p = some (write c p, (p.length : Int)) := by
-  simp [Go.crc16.crc16.Write, crc_compute, write, forIn_some_yield]
+  simp [Go.crc16.crc16.Write, crc_compute, write, forIn_some_yield, upI_zero, forIn_rangeI_idx]
 
 theorem crc_sum16 (c : Nat) : Go.crc16.crc16.Sum16 c = sum16 c := by
   simp [Go.crc16.crc16.Sum16, sum16]
